@@ -736,6 +736,7 @@ func init() {
 		Subs: []core.Sub{
 			{Name: "roundtrip", N: core.Const(64, 2048), Run: runRoundTrip},
 			{Name: "reparse", N: core.Const(32, 1024), Run: runReparse},
+			{Name: "obi-title", N: core.Const(32, 512), Run: runOBITitle},
 			{Name: "stream", N: core.Const(32, 1024), Run: runStream},
 			{Name: "e2e", N: core.Const(24, 480), Run: runE2E},
 		},
